@@ -617,6 +617,24 @@ func (w *W) harnessAPI(f *frame, fn *ssa.Function, args []Value, key int, g *Ter
 		v := Var(w.nondetName(f, key, "str"), 32)
 		w.noteNondet(v, pos)
 		return v, g, true
+	case "vNondetRange":
+		// an enumerable choice lo..hi (constant bounds): an ite tree over fresh Booleans, so that it can size allocations
+		lo, hi := args[0].(*Term), args[1].(*Term)
+		if !lo.IsConst() || !hi.IsConst() || int64(hi.val)-int64(lo.val) > 16 || int64(hi.val) < int64(lo.val) {
+			panic("vNondetRange needs small constant bounds at " + w.pos(pos))
+		}
+		name := w.nondetName(f, key, "int")
+		var v *Term = lo
+		for k := int64(lo.val) + 1; k <= int64(hi.val); k++ {
+			v = Ite(Var(fmt.Sprintf("%s_ge%d", name, k), 0), BV(64, uint64(k)), v)
+		}
+		// ge_k false => all higher ge false is not required: the tree picks the largest k whose flag is set
+		if _, ok := w.nondetPos[name]; !ok {
+			w.nondetPos[name] = w.pos(pos)
+			w.nondets = append(w.nondets, v)
+			w.nondetNames[v.id] = name
+		}
+		return v, g, true
 	case "vAssume":
 		c := args[0].(*Term)
 		if f.finalGuard != nil {
@@ -668,6 +686,13 @@ func (w *W) harnessAPI(f *frame, fn *ssa.Function, args []Value, key int, g *Ter
 		panic("vThreadDone not supported")
 	}
 	return nil, g, false
+}
+
+func (w *W) ndName(v *Term) string {
+	if n, ok := w.nondetNames[v.id]; ok {
+		return n
+	}
+	return v.name
 }
 
 func (w *W) noteNondet(v *Term, pos token.Pos) {
